@@ -147,7 +147,11 @@ def r05_3_routing(chk):
     item = ix.get_class("EFLRItem")
     sa = item.lookup("set_attributes")
     chk.consult(sa)
-    s = chk.terms.inline(sa, 3)
+    from ..terms import normalise_loops, Summary
+    s0 = chk.terms.inline(sa, 3)
+    s = Summary(sa)
+    s.effects = normalise_loops(s0.effects)
+    s.raises, s.returns, s.calls, s.props, s.precise = s0.raises, s0.returns, s0.calls, s0.props, s0.precise
     stores = attr_stores(s)
     chk.floor("attribute-part stores in set_attributes", len(stores), 2)
 
